@@ -455,7 +455,8 @@ def peek_waiting(E):
             fut.attrs['state'], fut.attrs['value'] = 'exception', err
         return None
     E.suspend_hook = on_suspend
-    q.attrs['_wakeup_next'] = Builtin('Queue._wakeup_next', lambda waiters: woken.append(list(waiters)))
+    # instrument the modelled asyncio.Queue method (not an attribute of the repository class: set below the sealing check)
+    dict.__setitem__(q.attrs, '_wakeup_next', Builtin('Queue._wakeup_next', lambda waiters: woken.append(list(waiters))))
     if True:
         try:
             r = E.await_value(E.call(E.getattr(q, 'peek'), []))
